@@ -1184,3 +1184,32 @@ Proof.
   destruct (fetcher_pass_leaves_recent c _ now_p i ch sc id e oldest more Hs Hc Hin F Ev Hy) as [_ H].
   exact H.
 Qed.
+
+(* non-vacuity of the hypotheses of fetcher_response_request *)
+Definition ex_resp_state : state :=
+  fst (step true cfg_ex (fst (step true cfg_ex (fst (step true cfg_ex (init 0%Z) 0%Z ETick)) 0%Z (ETimer [] [] [])))
+            80%Z (ENotify 1%N [7%N] 80%Z [7%N] true [])).
+Definition ex_resp_trace : list (Z * event) :=
+  [(400%Z, ETick); (400%Z, ETimer [7%N] [] []); (720%Z, ETick)].
+
+Example ex_resp_hyps :
+  reachT cfg_ex 0%Z 80%Z ex_resp_state /\
+  fair_run cfg_ex 0%Z ex_resp_state 80%Z ex_resp_trace /\
+  held_until_pass cfg_ex 7%N ex_resp_state ex_resp_trace /\
+  snd (run true cfg_ex ex_resp_state ex_resp_trace) = [(400%Z, (1%N, [7%N]))].
+Proof.
+  split; [|split; [|split]].
+  - unfold ex_resp_state. apply (reachT_step cfg_ex 0%Z 0%Z _ 80%Z); [|lia].
+    apply (reachT_step cfg_ex 0%Z 0%Z _ 0%Z); [|lia].
+    apply (reachT_step cfg_ex 0%Z 0%Z _ 0%Z); [constructor | lia].
+  - cbn [fair_run ex_resp_trace].
+    repeat match goal with |- _ /\ _ => split end; try exact I;
+      first [ intros due Hd; vm_compute in Hd; first [discriminate | inversion Hd; lia]
+            | intros Hc; vm_compute in Hc; discriminate
+            | intros _; split; [eexists _, _, _; reflexivity | lia] ].
+  - cbn [held_until_pass ex_resp_trace]. split; [vm_compute; discriminate|].
+    replace (takes_pass ex_resp_state ETick) with false by reflexivity.
+    split; [vm_compute; discriminate|].
+    match goal with |- if ?b then _ else _ => replace b with true by (vm_compute; reflexivity) end. exact I.
+  - vm_compute. reflexivity.
+Qed.
